@@ -280,7 +280,13 @@ def handle : Handler
         match field outs "seen", field outs "out", field outs "dl", field outs "ch", field outs "ct" with
         | some seenS, some outS, some dl, some chS, some ctS =>
           match parseM seenS, parseM outS, parseM chS, parseM ctS with
-          | some seen, some out, some ch, some ct =>
+          | some seen, some out, some ch0, some ct0 =>
+            -- gRPC-Web frames (the trailer frame; the gRPC-WebSocket header frame) carry binary (-bin) values in wire form,
+            -- unpadded base64 (webbridge lpmTrailerValue, fix D36 of slice C08): the client's view is compared decoded
+            let unbin (md : MD) : MD :=
+              md.map fun kv => if grpcBin kv.1 then (kv.1, kv.2.map fun v => (b64dec false v []).getD v) else kv
+            let ch := match e with | .grpcws => unbin ch0 | _ => ch0
+            let ct := match e with | .grpcws | .grpcweb => unbin ct0 | _ => ct0
             let qmd := ps.filter (fun p => GB.C19.isValidMetadataKey p.1 && GB.C19.isValidMetadataValue p.2)
             let r : Request := match e with
               | .grpcws => { lines := ps }
